@@ -9,6 +9,7 @@ import (
 	"github.com/opsidian/parsley/ast"
 	"github.com/opsidian/parsley/ast/interpreter"
 	"github.com/opsidian/parsley/combinator"
+	"github.com/opsidian/parsley/data"
 	"github.com/opsidian/parsley/parser"
 	"github.com/opsidian/parsley/parsley"
 	"github.com/opsidian/parsley/text"
@@ -56,7 +57,17 @@ func arithParser() parsley.Parser {
 		panic("bad operator " + ch[1].Token())
 	})
 	var expr, term, factor parser.Func
-	tok := func(p parsley.Parser) parsley.Parser { return text.Trim(p) }
+	// every token parser first looks at the work done so far: a parse that needs absurdly many
+	// parser calls is stopped by a count (see checkArith), not by a time-out
+	guard := func(p parsley.Parser) parsley.Parser {
+		return parser.Func(func(ctx *parsley.Context, l data.IntMap, pos parsley.Pos) (parsley.Node, data.IntSet, parsley.Error) {
+			if lim, ok := ctx.UserContext().(*arithLimit); ok && ctx.CallCount() > lim.calls {
+				panic(callLimit{ctx.CallCount()})
+			}
+			return p.Parse(ctx, l, pos)
+		})
+	}
+	tok := func(p parsley.Parser) parsley.Parser { return text.Trim(guard(p)) }
 	factor = combinator.Memoize(combinator.Any(
 		tok(terminal.Integer("int")),
 		combinator.SeqOf(tok(terminal.Rune('(')), &expr, tok(terminal.Rune(')'))).Bind(interpreter.Select(1)),
@@ -71,6 +82,12 @@ func arithParser() parsley.Parser {
 	))
 	return combinator.Sentence(&expr)
 }
+
+// arithLimit is put into the context's user context by the checks that want a work bound.
+type arithLimit struct{ calls int }
+
+// callLimit is the sentinel panic of a call-count guard.
+type callLimit struct{ n int }
 
 // ---- reference: hand-written scanner + precedence climbing over int64 ----
 
